@@ -245,7 +245,9 @@ def rand_case(rnd, big=False):
             at = rnd.randint(0, horizon) if horizon else 0
             cn = -1
             if rnd.random() < 0.2:
-                cn = at + rnd.randint(1, 8)
+                # half of the cancellations land in the very tick in which a computation started at the
+                # arrival would end (cancel / shutdown racing the completion bookkeeping)
+                cn = at + (rnd.choice([1, 2, 5, 12]) if rnd.random() < 0.5 else rnd.randint(1, 8))
             callers.append([rnd.randrange(nK), at, cn])
         callers.sort(key=lambda c: c[1])
         r = rnd.random()
